@@ -216,6 +216,12 @@ class CSetOp(object):
                 return int(self.truth(self.ev(e.kids[0], env)) or self.truth(self.ev(e.kids[1], env)))
             if op == "=":
                 return self.assign(e.kids[0], e.kids[1], env)
+            if op in ("==", "!=", "<", ">", "<=", ">=") and \
+                    any(m.k == "MemberExpr" and m.n == "size" for m in e.kids[1].walk()) and \
+                    any(m.k == "MemberExpr" and m.n == "len" for m in e.kids[0].walk()):
+                # capacity test of the result (len against size): the result has room -
+                # growing it is not part of the table
+                return int({">=": False, ">": False, "==": False, "<": True, "<=": True, "!=": True}[op])
             if op in ("==", "!=", "<", ">", "<=", ">="):
                 ks = self._keys_in(e, env)
                 a = self.ev(e.kids[0], env)
